@@ -310,6 +310,17 @@ def rule_saptable(report, prog, res):
                              '%s dereferences %s without a None test under the lock: after terminate() has cleared the table '
                              'this raises AttributeError instead of nfc.llcp.Error' % (m.qname.replace('nfc.llcp.llc.', ''), text))
     report.floor('C09-R5', n, 2)
+    # terminate() runs on the link thread while application threads may close their last socket (remove_socket clears the table
+    # entry under the lock): it must not read an entry twice -- test and use go through one local read, else the second read can be
+    # None, the AttributeError leaves the finally block and neither the remaining access points nor the link state are shut down
+    t = cls.methods['terminate']
+    twice = [sub for sub in walk_no_nested(t.node) if isinstance(sub, ast.Subscript) and norm(sub.value) == 'self.sap' and isinstance(sub.ctx, ast.Load)
+             and isinstance(getattr(sub, '_parent', None), ast.Attribute) and sub._parent.value is sub
+             and 'lock' not in lexical_locks(sub, t.node, {'self.lock': 'lock'})]
+    loads = [sub for sub in walk_no_nested(t.node) if isinstance(sub, ast.Subscript) and norm(sub.value) == 'self.sap' and isinstance(sub.ctx, ast.Load)]
+    report.check(bool(loads) and not twice, 'C09-R5', key(t.qname, 'a table entry is read once before it is tested and shut down'), t.loc(twice[0]) if twice else t.loc(),
+                 'terminate() dereferences %s directly after testing it in a separate read: a socket closing on another thread can clear the entry '
+                 'in between (AttributeError, the shutdown of the other access points and of the link state is skipped)' % (norm(twice[0]) if twice else ''))
 
 
 def rule_shutdown_order(report, prog, res):
@@ -446,6 +457,12 @@ for _fn in ('run_as_initiator', 'run_as_target'):
 L = 'nfc.llcp.llc'
 T = 'nfc.llcp.tco'
 MUTANTS = [
+    ('terminate-reads-table-entry-twice', 'nfc.llcp.llc', """                sap = self.sap[i]  # may be removed by a closing socket
+                if sap is not None:
+                    log.debug("closing service access point %d" % i)
+                    sap.shutdown()""", """                if self.sap[i] is not None:
+                    log.debug("closing service access point %d" % i)
+                    self.sap[i].shutdown()""", 'C09-R5'),
     ('remove-socket-unlists-first', 'nfc.llcp.llc', """        socket.close()
         with self.llc.lock:
             try:
